@@ -95,13 +95,13 @@ func c18Sess(kv map[string]string) string {
 		var prod *comp
 		switch {
 		case pan != nil:
-			if te, ok := pan.(*tErr); ok {
+			if te, ok := asTErr(pan); ok {
 				res = "panic." + te.Error()
 			} else {
 				res = "panic.other:" + drv.Clean(fmt.Sprint(pan))
 			}
 		case err != nil:
-			if te, ok := err.(*tErr); ok {
+			if te, ok := asTErr(err); ok {
 				res = "err." + te.Error()
 			} else if isLookupErr(err) {
 				res = "noentry"
@@ -413,7 +413,7 @@ func isLookupErr(err error) bool {
 	if err == nil {
 		return false
 	}
-	if _, ours := err.(*tErr); ours {
+	if _, ours := asTErr(err); ours {
 		return false
 	}
 	m := strings.ToLower(err.Error())
